@@ -22,12 +22,10 @@ def load_contracts():
   C.REGISTRY.clear()
   C.CALL_NAMES.clear()
   sym.reset_registry()
+  for name in [n for n in sys.modules if n.startswith('contracts.')]:
+    del sys.modules[name]
   for m in sorted(pkgutil.iter_modules(contracts.__path__), key=lambda m: m.name):
-    name = 'contracts.' + m.name
-    if name in sys.modules:
-      importlib.reload(sys.modules[name])
-    else:
-      importlib.import_module(name)
+    importlib.import_module('contracts.' + m.name)     # each module runs exactly once
   return C.REGISTRY
 
 
